@@ -332,6 +332,8 @@ const DIRECTED: &[(&str, &str, &str)] = &[
     ("free_loop_variable_in_shorthand_body", "attribute sh = v => label = [v, i]\n(identifier) @x { node n for i in [1, 2] { attr (n) sh = i } }", "x\n"),
     ("calls_without_arguments_inside_calls", "(module) { node n attr (n) v = (plus 1 (plus)), w = (concat [1] (concat)), x = (and #true (or)), y = (format \"{}{}\" 1 (plus)) let zero = (plus) attr (n) z = (plus 41 1 zero) }", "pass\n"),
     ("empty_list_rendered", "(module (_)* @stmts) @m { node n attr (n) v = (format \"<{}>\" @stmts), w = (join [[], [1]]) print @stmts attr (@stmts) k = 1 }", ""),
+    ("list_of_fresh_nodes_used_twice", "(module) { let kids = [ (node), (node) ] for k in kids { attr (k) a = 1 } for k in kids { attr (k) b = 2 } node hub for k in kids { edge hub -> k } for k in kids { edge hub -> k } }", "pass\n"),
+    ("conflict_in_a_shorthand_attribute_that_is_not_the_last", "attribute sh = v => a = v, b = 1\n(module) { node n attr (n) a = 0 attr (n) sh = 5 }", "pass\n"),
     ("failing_argument_of_a_variadic_call", "(module) { node n attr (n) v = (plus 1 (plus 4294967295 1)), w = (and #true (not 5)), x = (concat [1] (concat 5)), y = (join [1, 2, 3] (format \"{}\")) }", "pass\n"),
     ("failing_call_in_print_argument", "(identifier) @id { print (plus @id 1), (no-such-function @id) print @id.never }", "x = y\n"),
     ("four_captures_on_a_plus_quantified_node", "(identifier)+ @a @b @c @d { node n attr (n) la = (length @a), ld = (length @d) for x in @d { print x } }", "x = y\nz\n"),
